@@ -189,7 +189,7 @@ class C15(core.Check):
             'context values (-1, 0, n-1, n, n+1.., +-10^6), hostile strings (line breaks, markup, NUL, very long) in '
             'every string field, wrong shapes, every byte truncation (also inside multi-byte characters), garbage, '
             'valid answers with random layouts of 2-8 matches (long over several lines, nested, identical, zero-length, unsorted), '
-            'non-zero exit, missing command; x modes %s. quick: a stratified sample; thorough: all. Judged: exit 0 and '
+            'non-zero exit, missing command; x modes %s; valid answers also through `--as-server` (JSON reply, locations in the text). quick: a stratified sample; thorough: all. Judged: exit 0 and '
             'all reported locations inside the file, or exit 1 with the shell\'s own diagnostic; no traceback. '
             'non-trivial = a mutated (non-valid) answer; distinct = distinct (document, fault, mode)'
             % (len(DOCS), len(TYPES), MODES))
@@ -233,6 +233,13 @@ class C15(core.Check):
             for fi, (fid, data, ex) in enumerate(fl):
                 for mode in MODES:
                     allc.append((di, fi, mode, fid.split(':')[0]))
+        # server mode: valid answers (also with unusual strings) must give a JSON reply with locations in the text
+        for di in (0, 2):
+            tex_, plain, fl = self.doc_faults(di)
+            for fi, (fid, data, ex) in enumerate(fl):
+                st = fid.split(':')[0]
+                if st in ('surrogate', 'valid') or (st == 'layout' and fi % 5 == 0) or (st == 'string' and fi % 3 == 0):
+                    allc.append((di, fi, 'server', 'server'))
         if tier == 'quick':
             # stratified sample: per stratum a fixed share
             by = {}
@@ -240,7 +247,7 @@ class C15(core.Check):
                 by.setdefault(c[3], []).append(c)
             pick = []
             share = {'delete': 160, 'type': 500, 'value': 200, 'string': 320, 'shape': 140, 'truncate': 260,
-                     'truncate-utf8': 120, 'garbage': 40, 'exit': 8, 'valid': 16, 'command-missing': 8, 'layout': 400, 'surrogate': 300}
+                     'truncate-utf8': 120, 'garbage': 40, 'exit': 8, 'valid': 16, 'command-missing': 8, 'layout': 400, 'surrogate': 300, 'server': 120}
             for k, lst in sorted(by.items()):
                 rnd.shuffle(lst)
                 pick += lst[:share.get(k, 20)]
@@ -269,6 +276,8 @@ class C15(core.Check):
             args += ['--output', 'json', '--single-letters', 'A|I', '--equation-punctuation', 'all']
         else:
             args += ['--output', mode]
+        if mode == 'server':
+            return self.judge_server(case, fid, data, tex_, src)
         args.append('f.tex')
         plan = {'mode': 'raw', 'data': base64.b64encode(data).decode(), 'exit': ex,
                 'all_calls': not mode.endswith('ml1')}
@@ -342,8 +351,34 @@ class C15(core.Check):
         return dict(ok=True, nt=fid != 'valid', key=None, cnt=cnt,
                     obs=dict(fault=fid, mode=mode, outcome='report', size=len(out)))
 
+    def judge_server(self, case, fid, data, tex_, src):
+        plan = {'mode': 'raw', 'data': base64.b64encode(data).decode(), 'exit': 0, 'all_calls': True}
+        r = shellrun.run_server_request([], src, plan, workdir=self.tmp)
+        cnt = {'mode_server': 1, 'fault_' + fid.split(':')[0]: 1}
+        if r.timed_out:
+            return dict(ok=True, nt=False, key=None, cnt={'timeouts': 1}, obs=None, harness_error='server did not come up')
+        detail = dict(fault=fid, mode='server', doc=case['doc'], http=r.rc, stderr=r.err[-1500:], body=r.out[:300].decode('utf-8', 'replace'))
+        if 'Traceback (most recent call last)' in r.err:
+            exc = re.findall(r'^(\w+(?:Error|Exception)\w*)', r.err, re.M)
+            return dict(ok=False, nt=True, key='server:traceback:%s' % (exc[-1] if exc else '?'), cnt=cnt, obs=None, detail=detail)
+        try:
+            ms = json.loads(r.out.decode('utf-8'))['matches']
+        except Exception:       # noqa
+            if re.search(r'\*\*\* .*(internal error|problem):', r.err):
+                cnt['clean_errors'] = 1
+                return dict(ok=True, nt=True, key=None, cnt=cnt, obs=dict(fault=fid, mode='server', outcome='clean error'))
+            return dict(ok=False, nt=True, key='server:no-valid-reply', cnt=cnt, obs=None, detail=detail)
+        n = len(src)
+        for m in ms:
+            o, ln = m.get('offset'), m.get('length')
+            if not (isinstance(o, int) and isinstance(ln, int) and 0 <= o <= n + 1 and 0 <= o + ln <= n + 1):
+                detail['location'] = [o, ln]
+                return dict(ok=False, nt=True, key='server:location-outside-text', cnt=cnt, obs=None, detail=detail)
+        cnt['server_replies'] = 1
+        return dict(ok=True, nt=fid != 'valid', key=None, cnt=cnt, obs=dict(fault=fid, mode='server', matches=len(ms)))
+
     def quotas(self, tier):
-        q = {'clean_errors': 300, 'reports_in_file': 100, 'valid_answer_runs': 8}
+        q = {'server_replies': 60, 'clean_errors': 300, 'reports_in_file': 100, 'valid_answer_runs': 8}
         for k in ('delete', 'type', 'value', 'string', 'shape', 'truncate', 'truncate-utf8', 'garbage', 'layout', 'surrogate'):
             q['fault_' + k] = 30
         for m in MODES:
